@@ -111,20 +111,23 @@ pub fn gen_robot(rng: &mut Rng, idx: u64, mode: RobotMode, dof5_prob: f64) -> Ro
         let (p, _n) = bundled(rng.usize(11));
         (from_params(&p), "bundled")
     } else if class_roll < 0.75 {
-        let z = |rng: &mut Rng, v: f64| if rng.bool(1.0 / 3.0) { 0.0 } else { v };
+        // a third of these lengths is zero - or, one time in four, a calibration-sized residue below 10 micrometres
+        let z = |rng: &mut Rng, v: f64| if rng.bool(1.0 / 3.0) { if rng.bool(0.25) { rng.sign() * rng.logu(1e-9, 1e-5) } else { 0.0 } } else { v };
         let a1 = rng.range(-0.3, 0.5);
         let a2 = rng.range(-0.3, 0.3);
         let b = rng.range(-0.2, 0.2);
         let c1 = rng.range(0.1, 1.0);
         let c4 = rng.range(0.02, 0.4);
+        let a2 = z(rng, a2);
         (
             RParams {
                 a1: z(rng, a1),
-                a2: z(rng, a2),
+                a2,
                 b: z(rng, b),
                 c1: z(rng, c1),
                 c2: rng.range(0.2, 1.0),
-                c3: rng.range(0.2, 1.0),
+                // (a forearm modelled entirely by a2: c3 exactly zero, one time in eight when a2 is a real length)
+                c3: if a2.abs() > 0.05 && rng.bool(0.125) { 0.0 } else { rng.range(0.2, 1.0) },
                 c4: z(rng, c4),
                 offsets: [0.0; 6],
                 signs: [1; 6],
@@ -245,6 +248,8 @@ pub fn joints_resting(rng: &mut Rng, lim: f64) -> [f64; 6] {
             5 => q[j] = -0.0,
             6 => q[j] = *rng.pick(&[PI / 2.0, -PI / 2.0, PI, -PI]),
             7 => q[j] = rng.sign() * *rng.pick(&[5e-324, 1e-300, 1e-17, 1e-12]),
+            // a microradian-sized value (encoder noise at the home position)
+            8 => q[j] = rng.sign() * rng.logu(1e-8, 1e-5),
             _ => {}
         }
     }
@@ -332,6 +337,12 @@ pub fn limit_pair(rng: &mut Rng, class: usize, around: f64) -> (f64, f64) {
             let from = rng.range(PI + 0.2, 2.0 * PI - 0.1);
             let to = (from - rng.range(0.3, 2.5)).max(0.3);
             (from, to)
+        }
+        // a joint all but locked (window of 1e-6 .. 1e-3 rad) with the value a hair OUTSIDE it (2e-9 .. 1e-5 rad)
+        10 => {
+            let w = rng.logu(1e-6, 1e-3);
+            let d = rng.logu(2e-9, 1e-5);
+            if rng.bool(0.5) { (around + d, around + d + w) } else { (around - d - w, around - d) }
         }
         // arc of positive but tiny width (a few ulps .. a nanoradian), placed at the value or elsewhere
         8 => {
